@@ -213,7 +213,9 @@ func lemmaCmpTrans(a, b, c Object) (ab, bc, ac int, eab, ebc, eac bool) {
 
 // Data invariant of object values held in interfaces (what the constructors establish).
 //@ define wfMapObj(o) = implies(isMap(o), mpSorted(o))
-//@ define wfObj(o) = plain(o) && wfArr(o) && wfMapObj(o)
+//@ define wfVal(o) = o != nil && wfArr(o)
+//@ define wfData(o) = wfVal(o) && wfMapObj(o)
+//@ define wfObj(o) = plain(o) && wfData(o)
 
 // SaveGlobals reports the first write error: when it returns nil no write to `to` failed (ghost werr unchanged).
 //@ func (*Environment).SaveGlobals
